@@ -60,6 +60,14 @@ class Check:
         self._known = [k for k in load_known() if k.get("property") == pid and k.get("status", "open") == "open"]
         self._seen_viol = set()
 
+    def reset(self):
+        """forget everything recorded so far (used when a check restarts in a fallback domain)."""
+        notes = list(self.notes)
+        jobs = getattr(self, "jobs", 1)
+        self.__init__(self.pid, tier=self.tier, seed=self.seed, repo=str(self.repo), replay=self.replay)
+        self.jobs = jobs
+        self.notes = notes
+
     # ------------------------------------------------------------------ bookkeeping
     def rule(self, rid, desc, min_instances=None):
         r = self.rules.setdefault(rid, {"desc": desc, "instances": 0, "obligations": 0, "failed": 0,
